@@ -125,9 +125,11 @@ class RMol:
                 out.append((i, nb, a.chiral))
             elif len(real) == 3 and h == 1:
                 out.append((i, nb, a.chiral))
-            elif len(real) == 3 and h == 0:  # lone pair takes the slot an implicit H would take
+            elif len(real) == 3 and h == 0 and a.preceded:
+                # lone pair takes the slot an implicit H would take, right after the preceding atom; OpenSMILES does not say where
+                # the lone pair of a centre *without* preceding atom goes (toolkits differ) - no parity returned there
                 nb = list(real)
-                nb.insert(1 if a.preceded else 0, 'H')
+                nb.insert(1, 'H')
                 out.append((i, nb, a.chiral))
         return out
 
